@@ -263,8 +263,11 @@ Proof.
   assert (Hbf : Forall (add_ok i) (w_buf (x_w s))) by (rewrite Hlb; eapply Forall_impl; [|exact Mlb]; intros p Hp; left; exact Hp).
   unfold buf_process, shutdown_part. cbn [w_mod set_buf set_fes]. rewrite <- d1.
   destruct (shut (w_mod (deactivate i (x_w s)) i)) as [r|] eqn:Es; cbn [fst snd].
-  - split; [|split].
-    + destruct r; constructor; cbn [w_mod w_buf w_fes set_fes set_fin set_mod set_buf]; try reflexivity;
+  - rewrite !ifse_fes. split; [|split].
+    + assert (Gi : forall (b b' : bool) wa wb ea eb, Agree i wa wb -> Agree i (if b then set_err wa ea else wa) (if b' then set_err wb eb else wb))
+        by (intros [] [] wa wb ea eb [g1 g2 g3]; constructor; assumption).
+      apply Gi.
+      destruct r; constructor; cbn [w_mod w_buf w_fes set_fes set_fin set_mod set_buf]; try reflexivity;
         try (rewrite !N.eqb_refl; reflexivity); intros j; destruct (j =? i); try reflexivity; apply d2.
     + exists (wake_of i (w_mod (x_w s) i) ++ w_buf (x_w s) ++ restart_of i (w_mod (deactivate i (x_w s)) i)).
       unfold restart_of. rewrite Es. rewrite !fes_flush_app.
